@@ -1105,6 +1105,10 @@ func runC06(r *Report, tier string) {
 	checkValuePredicateKinds(r, "R13.1")
 	r.rule("R13.7", "(shared) label normalisation returns a boxed int64 or the string itself: two normalised labels can be compared and used as map keys.")
 	checkLabelNormalizer(r, "R13.7")
+	// follow-up operations dereference the elements of a decoded COSE_Sign's
+	// signature list: each was produced by the Signature decoder (never nil)
+	r.rule("R11.3", "(shared with C11) the COSE_Sign decoder stores only elements that passed the Signature decoder on a fresh object.")
+	checkSignMessageDecoderElems(r, "R11.3")
 	// MaxNestedLevels not raised on any decode mode
 	for _, mc := range P.modeConfigs() {
 		if mc.enc {
